@@ -18,6 +18,20 @@ pub struct ThreadState {
     pub parked: bool,
     pub unpark: bool,
     pub events: Vec<Op>,
+    /// kernel thread id of the role's thread (for /proc/self/task/<tid>/stat)
+    pub tid: Option<u64>,
+}
+
+/// (state letter, utime + stime in clock ticks) of a thread of this process.
+fn thread_stat(tid: u64) -> Option<(char, u64)> {
+    let text = std::fs::read_to_string(format!("/proc/self/task/{}/stat", tid)).ok()?;
+    // pid (comm) state ppid ... utime(14) stime(15): comm may contain spaces, so split after the last ')'
+    let rest = &text[text.rfind(')')? + 1..];
+    let fields: Vec<&str> = rest.split_whitespace().collect();
+    let state = fields.first()?.chars().next()?;
+    let utime: u64 = fields.get(11)?.parse().ok()?;
+    let stime: u64 = fields.get(12)?.parse().ok()?;
+    Some((state, utime + stime))
 }
 
 #[derive(Default)]
@@ -56,8 +70,10 @@ impl Controller {
 
     /// Called by a role's thread before it starts its operation.
     pub fn register(&self, role: usize) {
+        let tid = std::fs::read_link("/proc/thread-self").ok().and_then(|p| p.file_name().and_then(|n| n.to_str().and_then(|t| t.parse::<u64>().ok())));
         let mut sh = self.shared.lock().unwrap();
         sh.threads.insert(std::thread::current().id(), role);
+        sh.roles[role].tid = tid;
     }
 
     /// Called by a role's thread when its operation returned (or panicked).
@@ -148,6 +164,11 @@ impl Controller {
     pub fn settle_within(&self, role: usize, step_cap: usize, limit: std::time::Duration) -> Stop {
         let mut sh = self.shared.lock().unwrap();
         let deadline = std::time::Instant::now() + limit;
+        // consecutive 50 ms samples in which the thread was asleep in the kernel without being held by
+        // the step hook and without consuming any CPU time
+        let mut asleep: Option<std::time::Instant> = None;
+        let mut last_cpu: Option<u64> = None;
+        let mut last_taken = usize::MAX;
         loop {
             if sh.roles[role].done {
                 return Stop::Done;
@@ -160,6 +181,29 @@ impl Controller {
             }
             if sh.roles[role].waiting && sh.roles[role].taken >= sh.roles[role].allowed {
                 return Stop::WaitingForGrant;
+            }
+            // A thread that is neither held by the hook nor running, but asleep in the kernel with no
+            // CPU time consumed for a second, is blocked on something the hook does not see (a lock or
+            // a wait that is not the instrumented writer mutex).  A thread that is merely starved of
+            // CPU is runnable (state R), never asleep.
+            if !sh.roles[role].waiting && !sh.roles[role].parked {
+                let stat = sh.roles[role].tid.and_then(thread_stat);
+                match stat {
+                    Some((state, cpu)) if (state == 'S' || state == 'D') && last_cpu == Some(cpu) && last_taken == sh.roles[role].taken => {
+                        asleep.get_or_insert_with(std::time::Instant::now);
+                    }
+                    Some((_, cpu)) => {
+                        asleep = None;
+                        last_cpu = Some(cpu);
+                        last_taken = sh.roles[role].taken;
+                    }
+                    None => asleep = None,
+                }
+                if asleep.is_some_and(|t| t.elapsed() >= std::time::Duration::from_millis(1000)) {
+                    return Stop::BlockedInKernel;
+                }
+            } else {
+                asleep = None;
             }
             let now = std::time::Instant::now();
             if now >= deadline {
@@ -190,4 +234,6 @@ pub enum Stop {
     ParkedInLock,
     StepCap,
     Timeout,
+    /// asleep in the kernel for a second, not held by the step hook: blocked on an un-instrumented primitive
+    BlockedInKernel,
 }
